@@ -276,7 +276,7 @@ def cxxMeaning (env : Env) (ts : Toks) : Option (Option Str × CxxType) :=
   match acc.base with
   | none => none
   | some b =>
-    match cxxDeclarator env (2 * ts.length + 4) ts1 with
+    match cxxDeclarator env (2 * ts.length + 10) ts1 with
     | some (name, ops, ts2) =>
       match skipAttrs (ts2.length + 1) ts2 with
       | some ts3 =>
